@@ -19,6 +19,11 @@ def plain_decl(text, **kw):
 def collide(rng, d):
     """a declaration built to share atoms / literals with d"""
     text = bytes.fromhex(d["text"])
+    if len(text) <= 3 and rng.chance(1, 2):
+        # atom X (1-3 bytes) next to NUL*.X (<= 4 bytes): different patterns of the automaton
+        return plain_decl(b"\x00" * rng.range(1, 4 - len(text)) + text, nocase=rng.chance(1, 3))
+    if text[:1] == b"\x00" and text.lstrip(b"\x00") and rng.chance(1, 2):
+        return plain_decl(text.lstrip(b"\x00"), nocase=rng.chance(1, 3))
     k = rng.below(10)
     if k == 0:      # the same string again
         return dict(d)
@@ -82,7 +87,10 @@ class C12(Prop):
             "variants, prefixes / suffixes, the same atom at another literal offset, an encoding of an A string as "
             "a plain string, xor ranges; strings of A and B may be `private` (1/5) or xor; rules of B may be "
             "`private rule`s with strings (1/3); B in the same or another namespace, never global, never "
-            "referenced; A may start with global rules (one that holds, one that does not: its namespace is disabled while "
+            "referenced; short strings whose whole literal is the atom (1-3 bytes) next to the same bytes preceded by NULs, "
+            "in both orders; 1/4 of the string cases are scanned as 1-3 regions of a fragmented scan (fast / legacy / "
+            "single-pass) with full matches requested, half of them with A decidable without its strings; A may "
+            "start with global rules (one that holds, one that does not: its namespace is disabled while "
             "B keeps another one alive); reporting with and without include_not_matched_rules; 1/6 of the cases are "
             "the module family: no strings, every rule its own source text with `import \"pe\"` / `import \"elf\"` "
             "(the same module imported several times in A, the other one in B), scanned on a real PE / ELF file of "
@@ -121,6 +129,12 @@ class C12(Prop):
                 for j in range(rng.range(1, 3)):
                     if base_decls and rng.chance(3, 4):
                         d = collide(rng, rng.choice(base_decls))
+                    elif rng.chance(1, 4):
+                        # atoms shorter than 4 bytes (the whole literal is the atom), some starting with NULs
+                        t = rng.bytes(rng.range(1, 3), b"elfELF\x01\xba\xffZ9")
+                        if rng.chance(1, 3):
+                            t = (b"\x00" * rng.range(1, 3) + t)[:4]
+                        d = plain_decl(t, nocase=rng.chance(1, 3), wide=rng.chance(1, 6), ascii=True)
                     else:
                         d = gen_decl(rng)
                         if d["xor"] is not None and d["xor"][1] - d["xor"][0] > 6:
@@ -210,9 +224,25 @@ class C12(Prop):
             m += rng.choice(pool)
             if rng.chance(1, 2):
                 m += rng.bytes(rng.range(0, 3), b" .aZ\x00")
-        return {"A": A, "B": B, "nsA": nsA, "nsB": nsB, "order": order, "mem": bytes(m[:160]).hex(),
+        case = {"A": A, "B": B, "nsA": nsA, "nsB": nsB, "order": order, "mem": bytes(m[:160]).hex(),
                 "include_not_matched": rng.chance(2, 3),
                 "profile": rng.choice(["speed", "memory"]), "params": {}}
+        if rng.chance(1, 4):
+            # the same input as 1-3 regions of a fragmented scan (fast / legacy / single-pass), full matches requested:
+            # the pass that decides rules before the scan must not run; half of the time A is decidable without strings
+            mem = bytes(m[:160])
+            cuts = sorted(set([0, len(mem)] + [rng.below(len(mem) + 1) for _ in range(rng.range(0, 2))]))
+            addr, regs = rng.choice([0, 4096, 1 << 32]), []
+            for lo, hi in zip(cuts, cuts[1:]):
+                regs.append({"start": addr, "hex": mem[lo:hi].hex(), "fail": False})
+                addr += (hi - lo) + rng.choice([0, 16])
+            case["regions"] = regs
+            case["mode"] = rng.choice(["fast", "fast", "legacy", "single_pass"])
+            if rng.chance(1, 2):
+                for r in A:
+                    if not r.get("global"):
+                        r["cond"] = rng.choice(["true", "not false", "filesize >= 0 or true"])
+        return case
 
     def generate(self, ctx, rng, n):
         return [self.gen_case(rng.fork("c%d" % i)) for i in range(n)]
@@ -235,6 +265,9 @@ class C12(Prop):
         p["compute_full_matches"] = True
         p["include_not_matched"] = bool(case.get("include_not_matched", True))
         inp = {"file": os.path.join(core.REPO, case["asset"])} if case.get("asset") else {"mem": case["mem"]}
+        if case.get("regions") is not None:
+            inp = {"regions": case["regions"]}
+            p["mode"] = case["mode"]
         if case.get("frag"):
             data = open(os.path.join(core.REPO, case["asset"]), "rb").read()
             inp = {"regions": [{"start": case["frag"]["start"], "hex": data.hex(), "fail": False}]}
@@ -254,7 +287,8 @@ class C12(Prop):
             ctx.count("private_strings=%d" % sum(1 for r in c["A"] + c["B"] for d in r["decls"] if d.get("private")))
             ctx.count("xor_strings=%d" % sum(1 for r in c["A"] + c["B"] for d in r["decls"] if d["xor"] is not None))
             ctx.count("first=%s" % c["order"][0][0])
-            ctx.count("family=%s" % ("fragmented-entrypoint" if c.get("frag") else "modules" if c.get("asset") else "strings"))
+            ctx.count("family=%s" % ("fragmented-entrypoint" if c.get("frag") else "modules" if c.get("asset")
+                                     else "strings-fragmented-%s" % c["mode"] if c.get("regions") is not None else "strings"))
             ctx.count("globals_in_A=%d" % sum(1 for r in c["A"] if r.get("global")))
             ctx.count("include_not_matched=%s" % bool(c.get("include_not_matched", True)))
         return [{"union": u, "A": a, "B": b} for u, a, b in zip(ou, oa, ob)]
@@ -309,6 +343,10 @@ class C12(Prop):
                                               glist(g_smatch(x) for x in st["matches"])))
             reported.append(glist(strs))
         ctx.count("same_alone=%s" % same)
+        if case.get("regions") is not None:
+            from .c14 import g_regions
+            return "C12_case_frag %s %s %s %s %s" % (g_prm(case.get("params", {})), g_regions(case["regions"]),
+                                                     glist(rules), glist(reported), gbool(same))
         return "C12_case %s %s %s %s %s" % (g_prm(case.get("params", {})), gbytes(bytes.fromhex(case["mem"])),
                                             glist(rules), glist(reported), gbool(same))
 
